@@ -232,7 +232,7 @@ fn random_ops(rng: &mut Rng, cap: usize, budget: usize) -> Vec<Op> {
 pub fn run(a: &Args) {
     let mut st = Stream::new(&a.out, "buf");
     let mut rng = Rng::new(a.seed, "buf");
-    let per_cfg = if a.thorough() { 120 } else { 8 };
+    let per_cfg = if a.thorough() { 120 } else { 30 };
     let mut cfgs = 0u64;
     for cap in 1..=5usize {
         for start in 0..cap {
@@ -258,7 +258,7 @@ pub fn run(a: &Args) {
     }
     st.note(&format!("{} configurations = every cap 1..5 x start < cap x pre-fill length <= cap x source length 0..13", cfgs));
     // larger capacities / longer sources (random only)
-    let n_big = if a.thorough() { 40_000 } else { 2_000 };
+    let n_big = if a.thorough() { 40_000 } else { 10_000 };
     for _ in 0..n_big {
         let cap = 1 + rng.usize_below(24);
         let start = rng.usize_below(cap);
